@@ -43,3 +43,14 @@ Fixpoint erase_inner (inside : bool) (st : list hlayer) : list hlayer :=
   | LM :: st' => if inside then erase_inner true st' else LM :: erase_inner true st'
   | LR n :: st' => LR n :: erase_inner inside st'
   end.
+
+(** ** overlapping invocations.  The mark of the repaired middleware is created per INVOCATION and lives in
+    that invocation's message context, so concurrent invocations share nothing but the collector: the
+    observation log of a concurrent run is some interleaving of the logs of the single invocations. *)
+Inductive interleave {A : Type} : list (list A) -> list A -> Prop :=
+| il_done : forall ls, Forall (fun l => l = []) ls -> interleave ls []
+| il_step : forall pre x l post L,
+    interleave (pre ++ l :: post) L -> interleave (pre ++ (x :: l) :: post) (x :: L).
+
+Definition conc_logs (dedup : bool) (st : list hlayer) (h : N) (scripts : list (list hout)) : list (list hlabel) :=
+  map (fun s => snd (heval dedup st false h s)) scripts.
